@@ -33,6 +33,9 @@ pub enum Half {
     /// A channel whose items embed a channel half themselves: the port requests of those items travel through
     /// every endpoint that forwards the outer channel.
     NestTx(u32, mpsc::Sender<Inner>),
+    /// A raw (bin) channel used as transport of a typed channel whose items embed halves: when the bin half is
+    /// forwarded, the port requests of those items pass through chmux-level forwarding on every hop.
+    BinNestTx(u32, bin::Sender),
 }
 
 /// Item of a nested channel: carries the channel id and a oneshot sender for the reply.
@@ -46,7 +49,7 @@ impl Half {
     fn cid(&self) -> u32 {
         match self {
             Half::MpscTx(c, _) | Half::MpscRx(c, _) | Half::OneTx(c, _) | Half::OneRx(c, _) | Half::WatchRx(c, _) | Half::WatchTx(c, _)
-            | Half::BcastRx(c, _) | Half::LrTx(c, _) | Half::LrRx(c, _) | Half::BinTx(c, _) | Half::BinRx(c, _) | Half::IoTx(c, _) | Half::IoRx(c, _) | Half::NestTx(c, _) => *c,
+            | Half::BcastRx(c, _) | Half::LrTx(c, _) | Half::LrRx(c, _) | Half::BinTx(c, _) | Half::BinRx(c, _) | Half::IoTx(c, _) | Half::IoRx(c, _) | Half::NestTx(c, _) | Half::BinNestTx(c, _) => *c,
         }
     }
     fn kind(&self) -> &'static str {
@@ -65,6 +68,7 @@ impl Half {
             Half::IoTx(..) => "io_tx",
             Half::IoRx(..) => "io_rx",
             Half::NestTx(..) => "nest_tx",
+            Half::BinNestTx(..) => "binnest_tx",
         }
     }
 }
@@ -85,6 +89,7 @@ pub enum Keep {
     IoRx(u32, remoc::rch::io::Receiver),
     IoTx(u32, remoc::rch::io::Sender),
     NestRx(u32, mpsc::Receiver<Inner>),
+    BinNestRx(u32, bin::Receiver),
 }
 
 #[derive(Serialize, Deserialize)]
@@ -132,7 +137,7 @@ async fn wait<F: std::future::Future>(f: F, _bound: u64) -> Option<F::Output> {
 fn make_half(rng: &mut Rng, cid: u32, allow_lr: bool) -> (Half, Keep) {
     // local/remote (lr) channels cannot be forwarded by design: they only travel over a single connection
     let pick = loop {
-        let p = rng.below(15);
+        let p = rng.below(17);
         if allow_lr || !(p == 7 || p == 8) {
             break p;
         }
@@ -190,9 +195,13 @@ fn make_half(rng: &mut Rng, cid: u32, allow_lr: bool) -> (Half, Keep) {
             let (tx, rx) = if rng.chance(1, 2) { remoc::rch::io::sized(4) } else { remoc::rch::io::channel() };
             (Half::IoRx(cid, rx), Keep::IoTx(cid, tx))
         }
-        _ => {
+        13 | 14 => {
             let (tx, rx) = mpsc::channel(2);
             (Half::NestTx(cid, tx), Keep::NestRx(cid, rx))
+        }
+        _ => {
+            let (tx, rx) = bin::channel();
+            (Half::BinNestTx(cid, tx), Keep::BinNestRx(cid, rx))
         }
     }
 }
@@ -279,6 +288,19 @@ async fn use_half(h: Half) {
             };
             got_of(wait(r, WAIT_POLLS).await, |v| v)
         }
+        Half::BinNestTx(c, tx) => {
+            let (rtx, rrx) = oneshot::channel();
+            let r = async move {
+                let raw = tx.into_inner().await.map_err(|_| ())?;
+                let mut typed = base::Sender::<Inner>::new(raw);
+                typed.send(Inner { cid: c, reply: rtx }).await.map_err(|_| ())?;
+                let m = rrx.await.map_err(|_| ())?;
+                // keep the transport open until the reply is in
+                drop(typed);
+                Ok::<i64, ()>(m.cid as i64)
+            };
+            got_of(wait(r, WAIT_POLLS).await, |v| v)
+        }
     };
     tr(json!({"ev": "h_use", "cid": cid, "kind": kind, "got": got}));
 }
@@ -320,6 +342,17 @@ async fn serve_keep(k: Keep) {
         Keep::BinTx(c, tx) => (c, got_of(wait(bin_send(tx, c), WAIT_POLLS).await, |v| v)),
         Keep::IoRx(c, rx) => (c, got_of(wait(io_recv(rx), WAIT_POLLS).await, |v| v)),
         Keep::IoTx(c, tx) => (c, got_of(wait(io_send(tx, c), WAIT_POLLS).await, |v| v)),
+        Keep::BinNestRx(c, rx) => {
+            let r = async move {
+                let raw = rx.into_inner().await.map_err(|_| ())?;
+                let mut typed = base::Receiver::<Inner>::new(raw);
+                let inner = typed.recv().await.map_err(|_| ())?.ok_or(())?;
+                let got = inner.cid;
+                inner.reply.send(Msg { cid: got, n: 1 }).map_err(|_| ())?.await.map_err(|_| ())?;
+                Ok::<i64, ()>(got as i64)
+            };
+            (c, got_of(wait(r, WAIT_POLLS).await, |v| v))
+        }
         Keep::NestRx(c, mut rx) => {
             let r = async move {
                 let inner = rx.recv().await.map_err(|_| ())?.ok_or(())?;
